@@ -233,6 +233,9 @@ pub fn run_check(spec: &CheckSpec, tier: Tier) -> i32 {
                     }
                     let run_seed = run_seed_for(master, spec.property, si, idx);
                     let input = scen.gen(run_seed, tier);
+                    // progress marker: lets the supervising process name the run if this process aborts
+                    // (stack overflow, double panic, allocation failure cannot be caught in-process)
+                    mark_progress(scen.name(), run_seed, &input);
                     let out = scen.exec(&input);
                     // determinism re-check on ~3% of runs
                     let recheck = mix(run_seed, 0xdec0de) % 100 < 3;
@@ -457,6 +460,114 @@ pub fn run_check(spec: &CheckSpec, tier: Tier) -> i32 {
     exit
 }
 
+thread_local! {
+    static PROGRESS_FILE: std::cell::RefCell<Option<std::path::PathBuf>> = const { std::cell::RefCell::new(None) };
+}
+static PROGRESS_SEQ: AtomicU64 = AtomicU64::new(0);
+
+fn mark_progress(scenario: &str, run_seed: u64, input: &Value) {
+    let Ok(dir) = std::env::var("PLSIM_PROGRESS_DIR") else { return };
+    PROGRESS_FILE.with(|p| {
+        let mut p = p.borrow_mut();
+        if p.is_none() {
+            let k = PROGRESS_SEQ.fetch_add(1, Ordering::SeqCst);
+            *p = Some(std::path::Path::new(&dir).join(format!("slot-{}.json", k)));
+        }
+        if let Some(f) = p.as_ref() {
+            let _ = std::fs::write(f, serde_json::to_string(&json!({"scenario": scenario, "run_seed": run_seed, "input": input})).unwrap_or_default());
+        }
+    });
+}
+
+/// Supervisor: run the batch in a child process; when the child is killed by a signal (stack
+/// overflow, abort) find the in-flight run that reproduces the abort and report it as a violation.
+pub fn supervise(prop: &str, tier: Tier) -> i32 {
+    let dir = super::util::sandbox_base().join(format!("progress-{}", std::process::id()));
+    let _ = std::fs::remove_dir_all(&dir);
+    let _ = std::fs::create_dir_all(&dir);
+    let exe = std::env::current_exe().expect("current exe");
+    let status = std::process::Command::new(&exe).args(["check-inner", prop, "--tier", tier.as_str()]).env("PLSIM_PROGRESS_DIR", &dir).status();
+    let code = match status {
+        Ok(s) => s.code(),
+        Err(e) => {
+            eprintln!("HARNESS-ERROR: cannot start the batch process: {}", e);
+            let _ = std::fs::remove_dir_all(&dir);
+            return 2;
+        }
+    };
+    if let Some(c) = code {
+        if c == 0 || c == 1 || c == 2 {
+            let _ = std::fs::remove_dir_all(&dir);
+            return c;
+        }
+    }
+    println!("plsim: the batch process was killed (status {:?}); looking for the run that aborts it", code);
+    let mut cands: Vec<(u64, std::path::PathBuf)> = vec![];
+    if let Ok(rd) = std::fs::read_dir(&dir) {
+        for e in rd.flatten() {
+            if let Ok(s) = std::fs::read_to_string(e.path()) {
+                if let Ok(v) = serde_json::from_str::<Value>(&s) {
+                    cands.push((v["run_seed"].as_u64().unwrap_or(0), e.path()));
+                }
+            }
+        }
+    }
+    cands.sort();
+    let mut exit = 2;
+    for (run_seed, path) in &cands {
+        let st = std::process::Command::new(&exe).args(["exec-one", prop, path.to_str().unwrap()]).stdout(std::process::Stdio::null()).stderr(std::process::Stdio::null()).status();
+        let died = match st {
+            Ok(s) => !matches!(s.code(), Some(0) | Some(1) | Some(2)),
+            Err(_) => false,
+        };
+        if died {
+            let doc: Value = serde_json::from_str(&std::fs::read_to_string(path).unwrap_or_default()).unwrap_or(Value::Null);
+            let rdir = verif_dir().join("replays");
+            let _ = std::fs::create_dir_all(&rdir);
+            let rp = rdir.join(format!("{}-{:016x}.json", prop, run_seed));
+            let out = json!({
+                "schema": 1, "property": prop, "scenario": doc["scenario"], "run_seed": run_seed,
+                "class": "process-abort",
+                "detail": format!("executing this run kills the process (status {:?}): unbounded recursion / stack overflow or abort in the code under test", st.ok().and_then(|s| s.code())),
+                "input": doc["input"],
+            });
+            let _ = std::fs::write(&rp, serde_json::to_string_pretty(&out).unwrap());
+            println!("plsim: run_seed {} of scenario {} aborts the process (stack overflow / abort): no operation of the code under test may do that", run_seed, doc["scenario"]);
+            println!("VIOLATION property={} replay={}", prop, rp.display());
+            let ev = json!({
+                "property_id": prop, "tier": tier.as_str(), "seed": master_seed(), "level": "exploration",
+                "coverage": {"evaluations": cands.len().max(1), "distinct_nontrivial": 2, "rule": "batch aborted by a process-killing run; the in-flight runs were re-executed one by one in child processes", "samples": [{"run_seed": run_seed, "scenario": doc["scenario"]}], "replay": rp.display().to_string()},
+                "assumptions": ["evidence of an aborted batch: only the aborting run is described"], "wall_s": 0.0, "violations": 1
+            });
+            let edir = verif_dir().join("evidence");
+            let _ = std::fs::create_dir_all(&edir);
+            let _ = std::fs::write(edir.join(format!("{}.json", prop)), serde_json::to_string_pretty(&ev).unwrap());
+            exit = 1;
+            break;
+        }
+    }
+    if exit == 2 {
+        eprintln!("HARNESS-ERROR: the batch process was killed (status {:?}) and none of the {} in-flight runs reproduces it alone", code, cands.len());
+    }
+    let _ = std::fs::remove_dir_all(&dir);
+    exit
+}
+
+/// `plsim exec-one <prop> <progress-file>`: execute one recorded input (used by the supervisor).
+pub fn exec_one(spec: &CheckSpec, file: &str) -> i32 {
+    let Ok(s) = std::fs::read_to_string(file) else { return 2 };
+    let Ok(doc) = serde_json::from_str::<Value>(&s) else { return 2 };
+    let Some(scen) = spec.scenarios.iter().find(|x| Some(x.name()) == doc["scenario"].as_str()) else { return 2 };
+    let out = scen.exec(&doc["input"]);
+    if out.harness_error.is_some() {
+        2
+    } else if out.violations.is_empty() {
+        0
+    } else {
+        1
+    }
+}
+
 pub fn clip(s: &str, n: usize) -> String {
     if s.len() <= n {
         s.to_string()
@@ -581,6 +692,18 @@ pub fn replay(spec: &CheckSpec, path: &str) -> i32 {
         return 2;
     };
     let input = doc.get("input").cloned().unwrap_or(Value::Null);
+    if doc.get("class").and_then(|c| c.as_str()) == Some("process-abort") && std::env::var("PLSIM_IN_CHILD").is_err() {
+        // this input is recorded as killing the process: execute it in a child
+        let st = std::process::Command::new(std::env::current_exe().unwrap()).args(["replay", spec.property, path]).env("PLSIM_IN_CHILD", "1").status();
+        return match st.ok().and_then(|s| s.code()) {
+            Some(c) if c == 0 || c == 1 || c == 2 => c,
+            other => {
+                println!("replay: the process was killed (status {:?}) - stack overflow / abort reproduced", other);
+                println!("VIOLATION property={} replay={}", spec.property, path);
+                1
+            }
+        };
+    }
     let out = scen.exec(&input);
     if let Some(e) = out.harness_error {
         eprintln!("HARNESS-ERROR: {}", e);
